@@ -5,7 +5,7 @@ pub use nom;
 use nom::branch::alt;
 use nom::bytes::complete::tag;
 use nom::character::complete::{alpha1, digit1, hex_digit1, multispace0, multispace1};
-use nom::combinator::{map, opt, recognize};
+use nom::combinator::{map, opt, recognize, verify};
 use nom::error::{ErrorKind, ParseError};
 use nom::multi::{many0, many1};
 use nom::sequence::{delimited, preceded, terminated, tuple};
@@ -68,7 +68,10 @@ where
 ///
 /// [\[5\] Name](https://www.w3.org/TR/2008/REC-xml-20081126/#NT-Name)
 fn name(input: &str) -> IResult<&str, &str> {
-    recognize(tuple((multinamestartchar0, multinamechar0)))(input)
+    verify(
+        recognize(tuple((multinamestartchar0, multinamechar0))),
+        |v: &str| !v.is_empty(),
+    )(input)
 }
 
 /// (NameChar)+
